@@ -182,8 +182,11 @@ def run(ctx):
                         # the same property built through the constructors with another disjunction tree shape
                         nst = ('left', 'balanced', rng)[idx % 3]
                         handle(p, f'api|{sk}|{pk}|{ws}|{nst if isinstance(nst, str) else "random"}', False, nesting=nst)
+                    if max(ws) >= 2 and rep % 2 == 0:
+                        # ... and with every disjunction node obtained as a modified copy of another disjunction
+                        handle(p, f'api|{sk}|{pk}|{ws}|derived', False, nesting='derived')
     for n in range(ctx.share(B['random'])):
-        pg = gen.PropGen(rng, maxdepth=rng.randrange(1, 4), max_width=6, expose_disj_aliases=0.3)
+        pg = gen.PropGen(rng, maxdepth=rng.randrange(1, 4), max_width=6, expose_disj_aliases=0.3, const_preds=0.05)
         sk, pk = gen.pick(rng, gen.SCOPES), gen.pick(rng, gen.PATTERNS)
         positions = [name for name, _ in gen.binding_order(sk, pk)]
         p, _, _ = pg.make(scope_kind=sk, pat_kind=pk, widths={q: rng.choice((1, 2, 5, 6)) for q in positions}, n=n)
